@@ -99,7 +99,7 @@ def _go_build(src, out, race):
     if os.environ.get("VERIF_COVER"):
         # statement coverage of the code under test by a check (lib/coverage.sh); counters go to $GOCOVERDIR
         m = "github.com/cloudspannerecosystem/memefish"
-        cmd[2:2] = ["-cover", "-coverpkg=%s,%s/ast,%s/token,%s/char" % (m, m, m, m)]
+        cmd[2:2] = ["-cover", "-coverpkg=mfverif,%s,%s/ast,%s/token,%s/char" % (m, m, m, m)]  # the main package must be instrumented for the counters to be written
     t = time.time()
     p = run(cmd + ["."], cwd=src, env=goenv(), check=False, timeout=900)
     if p.returncode != 0:
